@@ -13,14 +13,27 @@ thread_local! {
     static MOTION_CHECKS: Cell<u64> = const { Cell::new(0) };
 }
 
-/// Called at the start of every motion check. Lets an external validity checker attribute
-/// each of its queries to the motion check that issued it (the counter value it reads while
-/// being queried), whatever order the check visits the segment in.
-pub fn note_motion_check() {
-    MOTION_CHECKS.with(|c| c.set(c.get() + 1));
+/// Scope guard created at the top of every motion check: the counter is bumped on entry and
+/// again when the check returns, so it is odd exactly while a motion check is running. An
+/// external validity checker that reads `motion_checks()` while being queried can thereby
+/// attribute each query to the motion check that issued it (or to none), whatever order the
+/// check visits the segment in.
+pub struct MotionCheckScope;
+
+impl MotionCheckScope {
+    pub fn enter() -> Self {
+        MOTION_CHECKS.with(|c| c.set(c.get() + 1));
+        MotionCheckScope
+    }
 }
 
-/// Number of motion checks started on this thread so far.
+impl Drop for MotionCheckScope {
+    fn drop(&mut self) {
+        MOTION_CHECKS.with(|c| c.set(c.get() + 1));
+    }
+}
+
+/// Current value of the motion-check counter of this thread (odd while a check is running).
 pub fn motion_checks() -> u64 {
     MOTION_CHECKS.with(|c| c.get())
 }
